@@ -38,7 +38,13 @@ func VerifC18OperatorSlashStates() {
 	l := verifenv.NewPlainLedger(f.Env, 1, 2, assets[0], bits)
 	for i := 0; i < nrec; i++ {
 		if verifrt.Param("all_records", 0) == 1 || verifrt.Bool(nm("with_record%d", i)) {
-			l.AddRecordWithNonce(nm("rec%d", i), 0, 0, 8, uint64(i))
+			r := l.AddRecordWithNonce(nm("rec%d", i), 0, 0, 8, uint64(i))
+			if verifrt.Param("pin_records", 0) == 1 {
+				// cheap variant for the quick tier: concrete records, so that the case of several
+				// slashed undelegations of one staker and asset is reached with few paths
+				amt := sdkmath.NewInt(int64(10 * (i + 1)))
+				verifrt.Assume(verifrt.All(r.Record.Amount.Equal(amt), r.Record.ActualCompletedAmount.Equal(amt), r.Record.BlockNumber == 50, r.Record.CompleteBlockNumber == 120))
+			}
 			has = true
 		}
 	}
@@ -56,6 +62,9 @@ func VerifC18OperatorSlashStates() {
 	}
 	_ = has
 	verifrt.Cover("a slash executed")
+	if info, ierr := f.Operator.GetOperatorSlashInfo(f.Ctx, verifenv.AVSAddr, verifenv.OperatorBech[0], "0x1_0x5"); ierr == nil && len(info.ExecutionInfo.SlashUndelegations) > 1 {
+		verifrt.Cover("several undelegations of one staker slashed by one event")
+	}
 	gs := f.Operator.ExportGenesis(f.Ctx)
 	verifrt.Assert(len(gs.SlashStates) == 1, "the executed slash is exported")
 	verifrt.Assert(gs.Validate() == nil, "the exported operator genesis passes genesis validation after a slash")
